@@ -84,6 +84,7 @@ class C19(Check):
                 faults.append((j, "garbage", i, "inner" if (j + i) % 2 == 0 else "idx3"))
                 faults.append((j, "garbage", i, "idx3" if (j + i) % 2 == 0 else "inner"))
                 faults.append((j, "garbage", i, "emptyval"))
+                faults.append((j, "garbage", i, "late"))
         n_model, preds, reads = self.model_predictions(counts, nrep, faults)
         if getattr(self, "search_mode", False):
             # a proof obligation over the regenerated skeleton broke: the positions of the emulator's reads are taken from the
